@@ -1,7 +1,7 @@
 """C04 — Every request gets exactly one outcome."""
 import re
 
-from analysis import (option_edges, membership_test, cmp_intervals, peel_await, Prov, Guards, fmt, fmt_short, walk, roots, short, comparison, find_calls, callee_matches,
+from analysis import (canon, const_int_of, async_param_names, option_edges, membership_test, cmp_intervals, peel_await, Prov, Guards, fmt, fmt_short, walk, roots, short, comparison, find_calls, callee_matches,
                       must_pass, path_to, describe_path, normalised_cmp, const_int_of, contains_call)
 from facts import AnchorError, strip_closure
 from harness import Rule, guarded
@@ -568,6 +568,94 @@ def r4(ctx):
     return rule
 
 
+def _excludes_nonce(facts, cb, depth):
+    """does the closure body `cb` return `<request's packet nonce> != <something not derived from the request>` (or `true` when there is
+    no nonce to compare with)? Spellings: if-let / match with a `true` arm, Option::map_or(true, |n| ..), Option::is_none_or(|n| ..)"""
+    cpv = Prov(cb, facts)
+    ret = canon(cpv.local(0))
+    alts = list(ret[1]) if ret[0] == "phi" else [ret]
+    seen_ne = False
+    is_pkt_nonce = lambda s_: bool(re.search(r"Packet::message_nonce\(.*RequestCall::packet\(", s_) or re.search(r"packet\(.*\)\.header\.message_nonce", s_))
+    for a in alts:
+        if const_int_of(a) == 1:
+            continue
+        c = comparison(a)
+        if c and c[0] == "!=":
+            sides = [fmt_short(c[1]), fmt_short(c[2])]
+            if sum(1 for s_ in sides if is_pkt_nonce(s_)) == 1 and not any("RequestCall" in s_ for s_ in sides if not is_pkt_nonce(s_)):
+                seen_ne = True
+                continue
+        if a[0] == "call" and depth < 2 and re.search(r"Option::(map_or|is_none_or)$", short(a[1])):
+            inner = [y for x in a[2] for y in walk(x) if y[0] == "agg" and isinstance(y[1], str) and y[1].startswith("closure:")]
+            dflt_ok = short(a[1]).endswith("is_none_or") or (len(a[2]) == 3 and const_int_of(a[2][1]) == 1)
+            ib = facts.bodies.get(inner[0][1][len("closure:"):]) if len(inner) == 1 else None
+            if ib is not None and dflt_ok and _excludes_nonce(facts, ib, depth + 1)[0]:
+                seen_ne = True
+                continue
+        return False, "filter closure returns %s" % fmt_short(ret)[:200]
+    return seen_ne, "filter closure returns %s" % fmt_short(ret)[:200]
+
+
+def r5(ctx):
+    """'at most 1+retries times per session key': the request that travelled inside the handshake packet is not sent again when the other
+    requests in flight are replayed under the new keys"""
+    facts = ctx.facts
+    rule = Rule("C04.R5", "replay under new keys skips the request that carried the handshake: new_session gets the nonce of the handshake packet "
+                "the request was re-inserted with, and replay_active_requests filters on it", floor=2, engine="A-prov")
+    b = body_of(facts, H + "handle_challenge")
+    rule.analysed(b)
+    prov = Prov(b, facts)
+    F = lambda e: fmt(canon(e), -60)
+    pkts = set()
+    for bi, t in b.calls():
+        if (t.callee() or "").endswith("RequestCall::update_packet"):
+            pkts.add(F(prov.operand(t.args[1])))
+    ns = [(bi, t) for bi, t in b.calls() if (t.callee() or "") == H + "new_session"]
+    if not pkts or not ns:
+        raise AnchorError("handle_challenge: update_packet / new_session not found")
+    for bi, t in ns:
+        e = prov.operand(t.args[3])
+        somes = [x for x in roots(e) if x[0] == "agg" and x[1].endswith("Option::Some")]
+        ok = bool(somes) and len(somes) == len(roots(e))
+        shown = fmt_short(e)
+        for x in somes:
+            n = canon(dict(x[2])["0"])
+            # the nonce is `<packet>.header.message_nonce` or `*<packet>.message_nonce()` of the packet handed to update_packet
+            base = None
+            if n[0] == "field" and n[2] == "message_nonce" and n[1][0] == "field" and n[1][2] == "header":
+                base = n[1][1]
+            elif n[0] == "call" and short(n[1]).endswith("Packet::message_nonce") and n[2]:
+                base = n[2][0]
+            ok = ok and base is not None and F(base) in pkts
+            shown = fmt_short(n)
+        rule.check(ok, "handle_challenge -> new_session(.., Some(nonce of the handshake packet given to update_packet))", "handle_challenge|replay-skip-nonce",
+                   "handle_challenge tells new_session to skip the request with nonce %s, which is not the nonce of the handshake packet the request was re-inserted with: "
+                   "the request that carried the handshake is sent a second time under the new keys" % shown[:160], loc=b.loc(t.line))
+    rb = body_of(facts, H + "replay_active_requests")
+    rule.analysed(rb)
+    rp = Prov(rb, facts)
+    names = async_param_names(facts, H + "replay_active_requests")
+    enc = [(bi, t) for bi, t in rb.calls() if (t.callee() or "").endswith("Session::encrypt_message")]
+    if not enc:
+        raise AnchorError("replay_active_requests: encrypt_message not found")
+    for bi, t in enc:
+        e = rp.operand(t.args[2])
+        filt = [x for x in walk(e) if x[0] == "call" and short(x[1]).endswith("Iterator::filter")]
+        ok = False
+        detail = "no filter on the replayed requests"
+        for x in filt:
+            for y in walk(x[2][1]):
+                if y[0] == "agg" and isinstance(y[1], str) and y[1].startswith("closure:"):
+                    cb = facts.bodies.get(y[1][len("closure:"):])
+                    if cb is None:
+                        continue
+                    rule.analysed(cb)
+                    ok, detail = _excludes_nonce(facts, cb, 0)
+        rule.check(ok, "replay_active_requests re-encrypts only requests whose packet nonce differs from the given one", "replay|filter",
+                   "replay_active_requests does not exclude the request with the given nonce (%s): the request that carried the handshake is replayed" % detail, loc=rb.loc(t.line))
+    return rule
+
+
 def run(ctx):
     G = lambda l, f, *a: guarded("C04." + l, f, ctx, *a)
-    return G("R1", r1) + G("R2", r2) + G("R3", r3) + G("R4", r4)
+    return G("R1", r1) + G("R2", r2) + G("R3", r3) + G("R4", r4) + G("R5", r5)
